@@ -813,7 +813,7 @@ impl<const N: usize> AEADCipherCodec<N> {
         }
     }
 
-    fn decode(&mut self, context: &Context<N>, session: &mut Session<N>, src: &mut BytesMut) -> anyhow::Result<Option<BytesMut>> {
+    fn decode(&mut self, context: &Context<N>, session: &mut Session<N>, src: &mut BytesMut, Tracked(vcache): Tracked<&mut SaltCache>) -> anyhow::Result<Option<BytesMut>> {
         if src.is_empty() {
             return Ok(None);
         }
@@ -823,21 +823,21 @@ impl<const N: usize> AEADCipherCodec<N> {
                 decoder.decode_payload(src, &mut dst).map_err(|e| verif_err())?;
                 if dst.is_empty() { Ok(None) } else { Ok(Some(dst)) }
             }
-            None => self.init_payload_decoder(context, session, src),
+            None => self.init_payload_decoder(context, session, src, Tracked(vcache)),
         }
     }
 
-    fn init_payload_decoder(&mut self, context: &Context<N>, session: &mut Session<N>, src: &mut BytesMut) -> anyhow::Result<Option<BytesMut>> {
+    fn init_payload_decoder(&mut self, context: &Context<N>, session: &mut Session<N>, src: &mut BytesMut, Tracked(vcache): Tracked<&mut SaltCache>) -> anyhow::Result<Option<BytesMut>> {
         if src.remaining() < session.identity.salt.len() {
             return Ok(None);
         }
         if context.kind.is_aead_2022() {
-            self.init_aead_2022_payload_decoder(context, session, src)
+            self.init_aead_2022_payload_decoder(context, session, src, Tracked(vcache))
         } else {
             let salt = src.split_to(session.identity.salt.len());
             /*R2*/
             self.decoder = Some(ssaead__new_decoder(context.kind, &context.key, &salt).map_err(verif_err_from)?);
-            self.decode(context, session, src)
+            self.decode(context, session, src, Tracked(vcache))
         }
     }
 
@@ -845,7 +845,7 @@ impl<const N: usize> AEADCipherCodec<N> {
         &mut self,
         context: &Context<N>,
         session: &mut Session<N>,
-        src: &mut BytesMut,
+        src: &mut BytesMut,Tracked(vcache): Tracked<&mut SaltCache>
     ) -> anyhow::Result<Option<BytesMut>> {
         let tag_size = context.kind.tag_size();
         let request_salt_len = if let Mode::Server = session.mode { 0 } else { N };
@@ -861,7 +861,7 @@ impl<const N: usize> AEADCipherCodec<N> {
         let mut salt = [0; N];
         let mut _src = Cursor::new(src);
         _src.copy_to_slice(&mut salt);
-        if context.check_nonce(&salt) {
+        if context.check_nonce(&salt, Tracked(vcache)) {
             return Err(verif_err());
         }
         /*R2*/
@@ -893,7 +893,7 @@ impl<const N: usize> AEADCipherCodec<N> {
         };
         let length = header.get_u16() as usize;
         if _src.remaining() >= length + tag_size {
-            context.set_nonce(salt);
+            context.set_nonce(salt, Tracked(vcache));
             let position = _src.position();
             let src = _src.into_inner();
             src.advance(position as usize);
